@@ -8,7 +8,7 @@ AUDIT_IMPORTS = ["H5V.Props.C11"]
 THEOREMS = ["H5V.Props.C11." + t for t in [
     "C11_step_refines", "C11_run_refines", "C11_reachable_wf", "C11_independent",
     "C11_checked_pop_front", "C11_checked_pop_back", "C11_checked_subtendril", "C11_push_checked",
-    "C11_format_valid", "C11_no_ub",
+    "C11_format_valid", "C11_no_ub", "C11_no_spurious_panic",
     "laws_bytes", "laws_ascii", "laws_latin1",
 ]]
 TRUSTED = [
@@ -488,6 +488,52 @@ def adjacency_cases(fmt, atom):
     return cases
 
 
+EDGE_SEQS = [
+    "7f", "80", "bf", "c0 80", "c1 bf", "c2 80", "c2 7f", "c2 c0", "df bf", "df", "e0 9f bf", "e0 a0 80", "e0 a0",
+    "e0 80 80", "e1 80 80", "ec bf bf", "ed 9f bf", "ed a0 80", "ed af bf", "ed b0 80", "ed bf bf", "ee 80 80",
+    "ef bf bf", "ef bf", "f0 8f bf bf", "f0 90 80 80", "f0 90 80", "f0 90", "f0", "f3 bf bf bf", "f4 8f bf bf",
+    "f4 90 80 80", "f5 80 80 80", "f7 bf bf bf", "f8 88 80 80 80", "fe", "ff", "e2 82 ac", "e2 82 7f", "e2 28 a1",
+    "f0 9f 98 80", "f0 9f 98 7f", "f0 28 8c bc", "c3 28", "a0 a1",
+]
+LEADS = ["ed a0 80", "ed a0 bd", "ed af bf"]
+TRAILS = ["ed b0 80", "ed b8 80", "ed bf bf"]
+
+
+def validate_cases(fmt, atom, tier):
+    """format validation at the edges of the well-formed byte ranges (and surrogate joins for WTF-8)"""
+    cases = []
+    pre6 = "61 62 63 64 65 66"
+    for s in EDGE_SEQS:
+        for ctx in (s, "61 " + s, s + " 62", pre6 + " " + s + " 7a 7a 7a"):
+            cases.append((mk(fmt, atom, ["from 0 " + ctx, "new 1", "push 1 " + ctx, "from 2 " + pre6 + " 67 68 69",
+                                         "push 2 " + ctx, "tpopb 2 1", "tpopb 2 2", "tpopf 2 9", "tpopf 2 1"]),
+                          "cover-validate"))
+        n = len(s.split(" "))
+        cases.append((mk(fmt, atom, ["from 0 " + pre6 + " 67 68 " + s + " 7a", "tsub 0 1 8 %d" % n,
+                                     "tsub 0 2 8 %d" % (n - 1 if n > 1 else 1), "tsub 0 3 9 %d" % n,
+                                     "tpopf 0 8", "tpopb 0 1", "tpopb 0 1"]), "cover-validate"))
+    if fmt == "wtf8":
+        for l in LEADS:
+            for t in TRAILS:
+                for pre in ("", pre6, pre6 + " 67 68 69"):
+                    for post in ("", " 7a", " 7a 7a 7a 7a 7a 7a 7a 7a 7a"):
+                        a = (pre + " " + l).strip()
+                        b = (t + post).strip()
+                        cases.append((mk(fmt, atom, ["from 0 " + a, "push 0 " + b, "from 1 " + a, "from 2 " + b,
+                                                     "pusht 1 2", "clone 1 3", "tpopb 1 1", "tpopb 1 4", "tpopf 3 1",
+                                                     "from 2 " + a + " " + b]), "cover-validate"))
+                        cases.append((mk(fmt, atom, ["from 0 " + a, "clone 0 1", "from 2 " + b, "clone 2 3",
+                                                     "pusht 0 2", "pusht 1 3", "push 3 " + l, "push 3 " + t]),
+                                      "cover-validate"))
+    if tier == "thorough" and fmt in ("utf8", "wtf8") and atom == "N":
+        # every pair of leading bytes, with representative third / fourth bytes
+        for a in range(0x80, 0x100):
+            for b in range(0x100):
+                for tail in ("", " 80", " bf", " 80 80", " 7f", " bf bf"):
+                    cases.append((mk(fmt, atom, ["from 0 %x %x%s" % (a, b, tail)]), "cover-validate-pairs"))
+    return cases
+
+
 def cover_cases(fmt, atom, lens=LENS, phases=(0,)):
     cases = []
     for L in lens:
@@ -568,6 +614,8 @@ def gen_cases(tier, rng):
             else:
                 cases += cover_cases(fmt, atom, phases=phases)
             cases += adjacency_cases(fmt, atom)
+            if fmt in ("utf8", "wtf8", "ascii"):
+                cases += validate_cases(fmt, atom, tier)
     n = 4000 if tier == "quick" else 400000
     for k in range(n):
         fmt = FORMATS[k % 5]
@@ -605,4 +653,5 @@ def neighbourhood(line):
 
 def extra_evidence(check):
     return {"formats": FORMATS, "boundary_lengths": LENS,
-            "families": "cover-<representation> × probes, cover-adjacent (push_tendril fast path), random"}
+            "families": "cover-<representation> × probes, cover-adjacent (push_tendril fast path), "
+                        "cover-validate (edges of the well-formed UTF-8 ranges, surrogate joins), random"}
